@@ -47,7 +47,9 @@ MayCreate(s) ==
   CASE s = "discard_noise" -> {"needlessgroup"}                         \* a group loses a child
     [] s = "apply_style_attributes" ->                                  \* style="" is opaque until applied
          {"evenodd", "splitopacity", "invisible", "structure", "unrounded", "needlessgroup"}
-    [] s = "resolve_nested_svgs" -> {"structure", "needlessgroup", "shorthand"}   \* g + clipPath rect
+    [] s = "resolve_nested_svgs" -> {"structure", "needlessgroup", "shorthand",   \* g + clipPath rect
+                                     \* the svg's own presentation attributes now reach its content
+                                     "evenodd", "splitopacity", "invisible"}
     [] s = "expand_shorthand" -> {"unrounded"}                          \* reflected control points
     [] s = "resolve_use" ->                                             \* the copy takes the use's attributes
          {"structure", "needlessgroup", "evenodd", "splitopacity", "invisible"}
